@@ -26,6 +26,10 @@ pub struct Hist {
     pub ops: Vec<Op>,
 }
 
+pub fn hist_f_strategy(max_ops: usize) -> impl Strategy<Value = Hist> {
+    hist_f(max_ops)
+}
+
 fn hist_f(max_ops: usize) -> impl Strategy<Value = Hist> {
     (
         any::<bool>(),
@@ -35,6 +39,10 @@ fn hist_f(max_ops: usize) -> impl Strategy<Value = Hist> {
         proptest::collection::vec(qreal::op(5, 9, 2, 0), 70..max_ops),
     )
         .prop_map(|(ordered, nlocals, cap, ops)| Hist { ordered, nlocals, cap, ops })
+}
+
+pub fn hist_i_strategy(max_ops: usize) -> impl Strategy<Value = Hist> {
+    hist_i(max_ops)
 }
 
 fn hist_i(max_ops: usize) -> impl Strategy<Value = Hist> {
@@ -289,6 +297,10 @@ pub fn exec_f2(h: &Hist) -> Outcome {
         o.set_fail(a, b);
     }
     o
+}
+
+pub fn hist_f2_strategy(max_ops: usize) -> impl Strategy<Value = Hist> {
+    hist_f2(max_ops)
 }
 
 fn hist_f2(max_ops: usize) -> impl Strategy<Value = Hist> {
